@@ -221,6 +221,21 @@ func genScenario(rng *rand.Rand, n int, allTransports bool) *Scenario {
 	}
 	if sc.Relay != "" {
 		sc.Pace = 1 + rng.IntN(6)
+		// back-to-back bursts: several packets of one format sit in the publisher's queue at once
+		for at := rng.IntN(60); at < n-50; {
+			l := 50 + rng.IntN(151)
+			if at+l > n {
+				l = n - at
+			}
+			sc.Bursts = append(sc.Bursts, [2]int{at, l})
+			at += l + 20 + rng.IntN(200)
+		}
+		if sc.TLS || rng.IntN(2) == 0 {
+			sc.PubCap = 256 // (a burst fits: nothing is refused)
+		}
+		sc.PubNoSAVP = sc.TLS && sc.Relay == "tcp" && rng.IntN(4) == 0
+	} else if sc.TLS && sc.Pace > 0 {
+		sc.Bursts = [][2]int{{rng.IntN(n / 2), 50 + rng.IntN(151)}}
 	}
 	if sc.TLS && !sc.ArbSeq && sc.Relay == "" && rng.IntN(2) == 0 {
 		// every format wraps early, before any reader sets up (rollover counter 1 at SETUP time)
@@ -327,6 +342,7 @@ func runScenario(c *corr.Ctx, sc *Scenario, name string, st *runStats) {
 		}
 	}
 	h.checkProperty(c)
+	h.checkServerDecode(c)
 	if os.Getenv("PIPE_DEBUG") != "" {
 		b, _ := json.Marshal(sc)
 		fmt.Fprintf(os.Stderr, "== %s %s\n", name, b)
@@ -609,6 +625,28 @@ func refusedScenarios(seed uint64) []*Scenario {
 }
 
 // replayScenario: PLAY again while playing, PAUSE → PLAY → PLAY, PLAY with Range - delivery goes on.
+// secureBurst: rtsps, a recording client writes back-to-back bursts (many packets of one format are in its
+// queue at once, each must leave as it was encrypted), the server session re-writes them to secure readers.
+func secureBurst(seed uint64, relay string) *Scenario {
+	return &Scenario{Seed: seed, Mode: "exact", TLS: true, Cap: 512, Medias: [][]int{{96, 97}, {98}}, N: 700, Pace: 2,
+		Relay: relay, PubCap: 512, Bursts: [][2]int{{40, 200}, {300, 60}, {420, 150}},
+		Readers: []ReaderSpec{
+			{Transport: "tcp", Medias: []int{0, 1}, Plan: []Step{{At: 0, Op: "play"}}},
+			{Transport: "udp", Medias: []int{1, 0}, Plan: []Step{{At: 0, Op: "play"}}},
+		}}
+}
+
+// secureBackChannel: rtsps, play sessions whose back channel carries back-to-back bursts towards the server,
+// while the stream sends bursts towards the readers.
+func secureBackChannel(seed uint64) *Scenario {
+	back := func(tr string) ReaderSpec {
+		return ReaderSpec{Transport: tr, Medias: []int{0, 1}, Back: true, BackBurst: 100, Plan: []Step{{At: 0, Op: "play"}, {At: 30, Op: "back"},
+			{At: 200, Op: "back"}, {At: 330, Op: "pause-refused"}, {At: 340, Op: "back"}}}
+	}
+	return &Scenario{Seed: seed, Mode: "exact", TLS: true, Cap: 512, Medias: [][]int{{96}, {97, 98}}, N: 500, Pace: 2, BackChannel: true,
+		Bursts: [][2]int{{60, 120}, {350, 100}}, Readers: []ReaderSpec{back("tcp"), back("udp")}}
+}
+
 func replayScenario(seed uint64, tls bool) *Scenario {
 	sc := &Scenario{Seed: seed, Mode: "exact", TLS: tls, Cap: 64, Medias: [][]int{{96}, {97, 98}}, N: 600, Pace: 2,
 		Readers: []ReaderSpec{
@@ -703,6 +741,9 @@ func Run(c *corr.Ctx) {
 	for i, sc := range refusedScenarios(c.Rng.Uint64()) {
 		runScenario(c, sc, fmt.Sprintf("refused/%d", i), st)
 	}
+	runScenario(c, secureBurst(c.Rng.Uint64(), "tcp"), "secure-burst/record-tcp", st)
+	runScenario(c, secureBurst(c.Rng.Uint64(), "udp"), "secure-burst/record-udp", st)
+	runScenario(c, secureBackChannel(c.Rng.Uint64()), "secure-burst/back-channel", st)
 	runScenario(c, keepaliveStorm(c.Rng.Uint64(), c.N(4000, 10000)), "keepalive-storm", st)
 	if !c.Quick() {
 		runScenario(c, keepaliveStorm(c.Rng.Uint64(), 40000), "keepalive-storm-40k", st)
@@ -718,8 +759,14 @@ func Run(c *corr.Ctx) {
 	// random scenarios, each a few times (the schedule differs from run to run)
 	// (the model's lists make the oracle quadratic in the number of packets: its time is part of the
 	// budget, so the pending cases are flushed as we go)
+	// the fixed part above takes longer on a loaded machine: the random part gets its own share (at least
+	// minRand scenarios, whatever the fixed part took), bounded by the hard limit
 	budget := time.Duration(c.N(28, 420)) * time.Second
-	for i := 0; time.Since(t0) < budget; i++ {
+	hard := time.Duration(c.N(50, 600)) * time.Second
+	minRand := c.N(12, 40)
+	c.DistN("fixed-part-seconds", int(time.Since(t0).Seconds()))
+	for i := 0; (time.Since(t0) < budget || i < minRand) && time.Since(t0) < hard; i++ {
+		c.Dist("random-scenarios")
 		n, reps := 1000, c.N(2, 3)
 		switch {
 		case !c.Quick() && i%12 == 0:
